@@ -299,8 +299,8 @@ def byte_table(ctx, rule, body):
     return table, rejects, [stores[0][0]]
 
 
-OUTER_ITEM = "some(Iterator::next(var:Enumerate<Zip<Split<char>, Chain<Split<char>, Repeat<&str>>>>))"
-INNER_ITEM = "some(Iterator::next(var:Enumerate<Split<char>>))"
+OUTER_ITEM = "try(Iterator::next(var:Enumerate<Zip<Split<char>, Chain<Split<char>, Repeat<&str>>>>))"
+INNER_ITEM = "try(Iterator::next(var:Enumerate<Split<char>>))"
 
 
 def range_reader(ctx, rule):
@@ -485,8 +485,8 @@ def handover(ctx, rule):
         ok = len(cs) == 1 and cs[0][1] == want and bool(oks) and all(b.dominates(cs[0][0], o) for o in oks)
         ctx.check(ok, rule, fn, nm, "%s is applied before every Ok return%s" % (want, " ('debug_id' wins over 'debugId')" if nm == "set_debug_id" else ""), detail=str(cs))
     ig = [(bi, q.shape(b.expr_of_call(t), roles)) for bi, t in q.calls_to(b, "types::SourceMap::add_to_ignore_list")]
-    it = [sh for l in sorted(b.var_names) for sh, _, _ in q.def_shapes(b, l, roles) if sh == "IntoIterator::into_iter(some(arg1.ignore_list))"]
-    ctx.check(len(ig) == 1 and ig[0][1] == "SourceMap::add_to_ignore_list(sm,some(Iterator::next(var:IntoIter<u32>)))" and len(it) == 1, rule, fn, "ignore_list", "every ignoreList entry is applied", detail=str(ig))
+    it = [sh for l in sorted(b.var_names) for sh, _, _ in q.def_shapes(b, l, roles) if sh == "IntoIterator::into_iter(try(arg1.ignore_list))"]
+    ctx.check(len(ig) == 1 and ig[0][1] == "SourceMap::add_to_ignore_list(sm,try(Iterator::next(var:IntoIter<u32>)))" and len(it) == 1, rule, fn, "ignore_list", "every ignoreList entry is applied", detail=str(ig))
     okv = [q.shape(b.expr_of_rvalue(s["rv"]), roles) for bi, si, s, it2 in b.locations() if not it2 and s["k"] == "assign" and s["place"]["l"] == 0 and s["rv"]["k"] == "agg" and s["rv"].get("variant") == "Ok"]
     ctx.check(okv == ["Result::Ok{0:sm}"], rule, fn, "returns-map", "that map is returned", detail=str(okv))
     # lenient names (C02.R7)
